@@ -124,3 +124,44 @@ def flw8_shape(ctx):
         ctx.check('FLW-8', 'Query::normalize|one-source-per-select-item', avoid_ok and not twice,
                   'every iteration over the select list pushes exactly one ResultColumn '
                   '(skipped=%s, doubled=%s)' % (not avoid_ok, twice), where(pushes[0][1]))
+
+
+def flw8_star_expansion_only_for_select_star(ctx):
+    """FLW-8 clause: the select list is replaced by the table's column list only when the query is
+    exactly `SELECT *`.  The caller resolves the column list whenever `*` is *referenced* anywhere
+    (`WHERE "*" IS NULL`, `SELECT x, *`), which is a weaker condition: expanding on `Some(list)`
+    instead of `is_select_star()` silently drops the written select items."""
+    P = ctx.P
+    st = ctx.ast.struct('Query', 'engine/planning/query.rs')
+    fnames = [f['name'] for f in st['fields']]
+    sidx = fnames.index('select')
+    F = P.one('QueryTask::new')
+    F.parse()
+    du = DefUse(F)
+    cfg = CFG(F)
+    qarg = [ln for (ln, ty) in F.args if ty.strip().endswith('planning::query::Query') or ty.strip() == 'engine::planning::query::Query']
+    stars = calls_matching(F, lambda n: n.endswith('Query::is_select_star'))
+    true_edges = []
+    for (b, t) in stars:
+        r = base_local(t.dest)
+        for (b2, k2, o2) in du.uses.get(r, []):
+            if k2 == 'term' and o2.kind == 'switch':
+                true_edges += [tg for (v, tg) in o2.targets if v != '0']
+    writes = []
+    for bid, blk in F.blocks.items():
+        if blk.cleanup:
+            continue
+        for s in blk.stmts:
+            if s.kind == 'assign' and re.match(r'^\(_(\d+)\.%d: ' % sidx, s.lhs.strip()):
+                l = int(re.match(r'^\(_(\d+)\.', s.lhs.strip()).group(1))
+                if not qarg or l in qarg:
+                    writes.append((bid, s))
+    if not writes:
+        ctx.ok('FLW-8', 'QueryTask::new|star-expansion-only-for-select-star',
+               'the select list of the query is never replaced in QueryTask::new', where(F.blocks[0].term))
+        return
+    for i, (bid, s) in enumerate(writes):
+        ok = any(cfg.dominates(te, bid) for te in true_edges)
+        ctx.check('FLW-8', 'QueryTask::new|star-expansion-only-for-select-star%s' % ('' if i == 0 else '#%d' % (i + 1)),
+                  ok, 'query.select is replaced by the table\'s column list only on the true edge of '
+                      'Query::is_select_star()', where(s))
